@@ -59,7 +59,7 @@ def worker(k):
                     rec["status"] = "killed-by-tests"
                 else:
                     shutil.rmtree(wdir + "/out", ignore_errors=True)
-                    rc, out = run(["/verif/bin/govc", "check", "-property", "all", "-repo", repo, "-no-evidence", "-outdir", wdir + "/out"], "/verif", 600)
+                    rc, out = run([os.environ.get("GOVC_BIN", "/verif/bin/govc"), "check", "-property", "all", "-repo", repo, "-no-evidence", "-outdir", wdir + "/out"], "/verif", 600)
                     viol = sorted(set(l.split("obligation=")[1].replace(" no-failing-input-found", "") for l in out.splitlines() if l.startswith("VIOLATION") and "obligation=" in l))
                     props = sorted(set(l.split()[1].split("=")[1] for l in out.splitlines() if l.startswith("VIOLATION")))
                     errs = [l for l in out.splitlines() if l.startswith("ENGINE-ERROR") or l.startswith("UNDECIDED")]
